@@ -51,6 +51,12 @@ func replayOne(c *drv.Ctx, w *cw.Writer, path, kind string) error {
 			return err
 		}
 		return runE2ECase(w, ec, kind)
+	case "execsync":
+		var ec execCase
+		if err := drv.ReplayCase(path, &ec); err != nil {
+			return err
+		}
+		return runExecCase(w, ec, kind)
 	case "adversary":
 		var ac advCase
 		if err := drv.ReplayCase(path, &ac); err != nil {
@@ -100,6 +106,12 @@ func runLoader(c *drv.Ctx) error {
 			shape = "skipcount"
 		}
 		if err := runE2ECase(w, e2eCase{Seed: c.R.U64(), Shape: shape}, "random"); err != nil {
+			return err
+		}
+	}
+	nx := c.Count(120, 3000)
+	for i := 0; i < nx; i++ {
+		if err := runExecCase(w, execCase{Seed: c.R.U64(), Whole: i%2 == 0}, "random"); err != nil {
 			return err
 		}
 	}
